@@ -154,7 +154,7 @@ TReq ==
   LET ev  == Log[l]
       cfg == cfgs[ev.ifc]
       st  == sts[ev.ifc]
-      req == RxDecode(ev.b, ev.fill, ev.len, cfg.mtu)
+      req == [RxDecode(ev.b, ev.fill, ev.len, cfg.mtu) EXCEPT !.grew = IF ev.live > ev.live0 THEN "yes" ELSE "no"]
       out == OutOf(ev, cfg)
   IN /\ ev.e = "req"
      /\ (Chk("EQ") /\ ev.eq = 1) => TxBytes(ev.out) = TxBytes(Log[l - 1].out)
